@@ -216,6 +216,14 @@ let do_tb toks now =
                                 bytes_of_hex (String.sub k 5 (String.length k - 5))))) None
       | ["S"; m; sv; cv; sid; _] -> show (do_step (SESS (mk_tuple m sv cv, n_of_int (int_of_string sid)))) None
       | ["D"; sid] -> show (do_step (DEAD (n_of_int (int_of_string sid)))) None
+      | ["K"; m; lst] ->
+        let keys = List.map (fun q -> match split '.' q with
+            | [a; b] -> session_key (mk_tuple m a b) | _ -> []) (split ',' lst) in
+        let arr = Array.of_list keys in
+        let cls = List.mapi (fun i k ->
+            let rec first j = if j >= i then i else if arr.(j) = k then j else first (j + 1) in
+            string_of_int (first 0)) keys in
+        "kcls:" ^ String.concat "." cls
       | ["W"; k] -> cur_now := now + int_of_string k; env := mk_env !cur_ttl !cur_now; "-"
       | ["L"; n] -> cur_ttl := int_of_string n; env := mk_env !cur_ttl !cur_now; "-"
       | "X" :: sid :: m :: sv :: cv :: rest ->
@@ -278,7 +286,7 @@ let () =
   if Array.length Sys.argv > 3 then
     variant := (match Sys.argv.(3) with
       | "defective" -> defective | "def_iso" -> defIso | "def_sid" -> defSid
-      | "head" -> head | "head_reserve" -> headReserve | "head_guard" -> headGuard | _ -> repaired);
+      | "unreserved" -> unreserved | "reserve_only" -> reserveOnly | "guard_only" -> guardOnly | _ -> repaired);
   let impl = Array.of_list impl in
   List.iteri (fun i line ->
     let il = if i < Array.length impl then impl.(i) else "" in
